@@ -1,11 +1,15 @@
 SPECIFICATION Spec
-CONSTANTS MaxLen = 2
+CONSTANTS Kinds = {"plain", "mixed"}
+          MixedServerSet = {"none", "rel"}
+          MixedCoreServers = {"none"}
+          MixedMethKeys = {"G", "GP"}
+          MaxLen = 2
           MaxT = 2
           ServerSet = {"none", "rel", "relslash", "relroot", "abs", "absvar", "two", "psfirst", "pslast"}
           CoreLen = 2
           CoreT = 2
           CoreServers = {"none", "rel"}
-          Slice = 5
+          Slice = 8
           Seed = 1
 INVARIANTS DesignOK Emit
 CHECK_DEADLOCK FALSE
